@@ -41,13 +41,14 @@ def configs(check: Check):
     ]
     # hierarchical families - the shape of `f*g` and `f*g*h`, where a factor is first encoded for its own term and then again,
     # at another rank, for the interaction
-    base = ["a", "b", "A", "B", "C(A)", "I(a*2)", "{a+b}"]
+    base = ["a", "b", "A", "B", "C(A)", "I(a*2)", "{a+b}", "C(A, contr.sum)", "C(B, contr.helmert)"]
+    var_of = lambda f: "A" if f in ("A", "C(A)", "C(A, contr.sum)") else "B" if f in ("B", "C(B, contr.helmert)") else f
     hier = []
     for f, g in itertools.permutations(base, 2):
-        if {f, g} == {"A", "C(A)"}:
+        if var_of(f) == var_of(g):
             continue
         hier.append([mc.T([f]), mc.T([g]), mc.T([f, g])])
-    for f, g, h in [("a", "A", "B"), ("A", "B", "b"), ("B", "a", "b"), ("B", "C(A)", "{a+b}")]:
+    for f, g, h in [("a", "A", "B"), ("A", "B", "b"), ("B", "a", "b"), ("B", "C(A)", "{a+b}"), ("C(A, contr.sum)", "b", "C(B, contr.helmert)")]:
         hier.append([mc.T([f]), mc.T([g]), mc.T([h]), mc.T([f, g]), mc.T([f, h]), mc.T([g, h]), mc.T([f, g, h])])
     if not thorough:
         hier = [fam for k, fam in enumerate(hier) if k % 2 == 0 or len(fam) > 3]
@@ -71,7 +72,7 @@ def run(check: Check) -> None:
     check.bounds.update({"rows": "7 (crossed), 1, 3 (B with one level)", "terms_per_formula": "<=3 (+ hierarchical f*g / f*g*h families of 3 / 7 terms)", "factors_per_term": "<=3", "levels": "A:3, B:2",
                          "literal_scalings": ["2.5", "3"], "outputs": ["pandas", "numpy"], "index_kinds": ["default", "permuted integers", "strings", "non-unique"]})
     check.out_of_scope += ["sparse output, numeric data as DataFrame columns (Series branch of the encoders) and the narwhals materializer are NOT solver-decided: scipy/narwhals cannot hold symbolic cells; the same oracle is run natively at one generic point per configuration (group matrix.other_branches/ground)",
-                           "non-treatment contrasts (C11)", "more than 3 terms / 3 factors per term"]
+                           "contrasts other than treatment / sum / helmert (C11)", "more than 3 terms / 3 factors per term"]
     cases = []
     seen = set()
     for fam, intercept, efr, out in configs(check):
